@@ -43,6 +43,7 @@ def configs(tier):
         ("cubic", (2, 2, 2), 2, False),
         ("hexC3", (3, 3, 1), 2, True),
         ("hexC3", (3, 3, 1), 3, True),       # odd mesh: the centre child coincides with its (dead) parent
+        ("bcc", (2, 2, 2), 2, True),         # sub-cells of DIFFERENT parents are symmetry-equivalent (merged at run level)
     ]
     for kind, div, mesh, sym in base:
         for fac in (1, 2):
@@ -54,6 +55,10 @@ def configs(tier):
                     depth = 3
                 if tier == "quick" and kind == "cubic" and fac == 2:
                     depth = 1
+                if kind == "bcc":
+                    if fac == 2 or rank == 1:
+                        continue
+                    depth = 3 if tier == "quick" else 4      # index bookkeeping after a run-level merge needs 2 further iterations
                 out.append({"sys": kind, "div": list(div), "mesh": mesh if isinstance(mesh, int) else list(mesh),
                             "fac": fac, "irred": sym, "rank": rank, "depth": depth})
     return out
@@ -70,6 +75,8 @@ def get_system(kind, seed):
             s = zoo.make_system(1, "orth", "planar", "zero", seed=seed, periodic=(True, True, False), tag="c10")
         elif kind == "cubic":
             s = zoo.make_system(1, "sc", "shell1", "zero", seed=seed, tag="c10", symmetry_gen=["C4z", "C2x", "Inversion"])
+        elif kind == "bcc":
+            s = zoo.make_system(1, "bcc", "shell1", "zero", seed=seed, tag="c10", symmetry_gen=["C4z", "C2x", "Inversion"])
         elif kind == "hexC3":
             s = zoo.make_system(1, "hex", "planar", "zero", seed=seed, periodic=(True, True, False), tag="c10",
                                 symmetry_gen=["C3z"])
